@@ -139,6 +139,29 @@ def h_formula_messages(E, length):
     return out
 
 
+def h_matrix_messages(E, length):
+    """MatrixGraders with suppressed shape messages, called one after the other: what is shown depends on this call only (wrong_msg exactly when the best
+    grade is 0 and no specific message applies; a matched zero-credit alternative keeps its own message; a grader without wrong_msg shows none)"""
+    from mitxgraders import MatrixGrader
+    mk = lambda **kw: MatrixGrader(max_array_dim=1, suppress_matrix_messages=True, **kw)   # noqa
+    graders = {'M1': mk(answers='[1,2]', wrong_msg='WRONG'),
+               'M2': mk(answers=({'expect': '[1,2]'}, {'expect': '[1,2,3]', 'grade_decimal': 0, 'msg': 'm'})),
+               'M3': mk(answers=({'expect': '[1,2]'}, {'expect': '[1,2,3]', 'grade_decimal': 0, 'msg': 'm'}), wrong_msg='W3')}
+    want = {('M1', '[1,2]'): (1, ''), ('M1', '[1,2,3]'): (0, 'WRONG'), ('M1', '5'): (0, 'WRONG'), ('M1', '[3,4]'): (0, 'WRONG'),
+            ('M2', '[1,2]'): (1, ''), ('M2', '[1,2,3]'): (0, 'm'), ('M2', '5'): (0, ''), ('M2', '[3,4]'): (0, ''),
+            ('M3', '[1,2]'): (1, ''), ('M3', '[1,2,3]'): (0, 'm'), ('M3', '5'): (0, 'W3'), ('M3', '[3,4]'): (0, 'W3')}
+    keys = sorted(want)
+    out = []
+    for step in range(length):
+        gname, inp = E.choice('call%d' % step, keys)
+        r = graders[gname](None, inp)
+        grade, msg = want[(gname, inp)]
+        E.check('grade-is-maximum', near_eq(r['grade_decimal'], grade))
+        E.check('message-depends-on-this-call-only', r['msg'] == msg)
+        out.append(r['msg'])
+    return out
+
+
 def h_sub(E, ordered):
     """alternatives inside a list: each list item has two alternative answers"""
     from mitxgraders import SingleListGrader
@@ -161,6 +184,7 @@ def harnesses(tier):
 
     def add(fn, base, params, bounds, **kw):
         hs.append(Harness(pname(base, **params), fn, tuple(params.values()), FUNCS, bounds, STUBS, **kw))
+    add(h_matrix_messages, 'matrix_messages', dict(length=2), 'all sequences of 2 calls over 3 MatrixGraders x 4 inputs (shape mismatches suppressed)', validate=False)
     add(h_alts, 'alts', dict(k=1, wrong=True, reorder=False, full=True), 'credits in [0,1]')
     for w in (True, False):
         add(h_alts, 'alts', dict(k=2, wrong=w, reorder=True, full=True), 'credits in [0,1], both orders')
